@@ -50,6 +50,9 @@ type Node struct {
 	facts           *facts
 	preBlockOK      bool
 	lastBlockObj    *Block
+	scriptCrashSends int // scripts: the first incarnation crashes after this many recipients of its first broadcast
+	lastProposal    *Header
+	lastProposalView byte
 	everHad         map[Hash]bool // transactions this node ever possessed (pool or supplied)
 	crashInProcess  int
 	fatal           bool
@@ -189,6 +192,9 @@ func (n *Node) boot() {
 	n.up = true
 	n.crashing = false
 	n.crashAfterSends = -1
+	if n.scriptCrashSends > 0 && n.inc == 1 {
+		n.crashAfterSends = n.scriptCrashSends
+	}
 	n.subscribed = false
 	n.tm = &simTimer{n: n}
 	n.facts = newFacts()
@@ -228,7 +234,7 @@ func (n *Node) call(st *Step, fn func()) {
 	}
 	s.st.Calls++
 	// amnesia crash points: before the call, inside a broadcast, inside ProcessBlock
-	if n.kind == FAmnesia && st.Op != OpStart && s.sc.CrashPM > 0 && !st.Probe && s.tape.Chance(SFault, s.sc.CrashPM, 1000) {
+	if n.kind == FAmnesia && st.Op != OpStart && s.sc.CrashPM > 0 && !st.Probe && !s.postGST() && s.tape.Chance(SFault, s.sc.CrashPM, 1000) {
 		switch s.tape.Draw(SFault, 3) {
 		case 0:
 			s.fault("crash_between_calls")
@@ -583,11 +589,17 @@ func (n *Node) cbRequestTx(hs ...Hash) {
 			s.fault("requested_tx_unknown")
 			continue
 		}
-		if s.tape.Chance(SApp, 1, 12) {
-			s.fault("requested_tx_never_supplied")
-			continue
+		var d int64
+		if s.sc.Family == "sync" || s.postGST() {
+			// fault-free application: every requested transaction is supplied within delta
+			d = 1 + s.tape.Range(SApp, 0, s.sc.Delta-1)
+		} else {
+			if s.tape.Chance(SApp, 1, 12) {
+				s.fault("requested_tx_never_supplied")
+				continue
+			}
+			d = s.sc.LatBase*(1+4*s.sc.SupplySlow) + s.tape.Range(SApp, 0, 16)*s.sc.LatBase/2
 		}
-		d := s.sc.LatBase*(1+4*s.sc.SupplySlow) + s.tape.Range(SApp, 0, 16)*s.sc.LatBase/2
 		s.after(d, &Event{Kind: EvTxSupply, Node: n.id, Inc: n.inc, Tx: tx})
 	}
 }
@@ -678,6 +690,9 @@ func (n *Node) appendBlock(b *Block) bool {
 	}
 	if n.honest && cp.Idx > n.s.st.MaxHeight {
 		n.s.st.MaxHeight = cp.Idx
+		if n.s.heightFn != nil {
+			n.s.heightFn(cp.Idx)
+		}
 	}
 	return true
 }
@@ -693,7 +708,15 @@ func (n *Node) scheduleReset() {
 		st = SSpecial
 	}
 	var d int64
-	if s.sc.ResetDelay > 0 {
+	nh := n.tip().Idx + 1
+	if idx := s.sc.IndexAt(nh, n.ident); s.sc.SlowNode > 0 && n.ident == s.sc.SlowNode-1 && idx != primaryOf(nh, 0, len(s.sc.ValsAt(nh))) && idx != primaryOf(nh+1, 0, len(s.sc.ValsAt(nh+1))) {
+		// a slow application, but never the one that has to propose next: a late
+		// proposal is a fault of the application, not a matter of message order
+		d = s.tape.Range(st, 0, 12) * int64(s.sc.TPB) / 8
+		if d > 0 {
+			s.fault("slow_reset")
+		}
+	} else if s.sc.ResetDelay > 0 {
 		d = s.tape.Range(st, 0, 8) * s.sc.ResetDelay / 8
 		if d > 0 {
 			s.fault("slow_reset")
